@@ -244,6 +244,12 @@ func ZZ_C17_StripedGrow() {
 	st := &striped[int, int]{buffers: make([]atomic.Pointer[ring[int, int]], 2), len: 2}
 	succeeded := map[int]bool{10: true}
 	st.buffers[0].Store(newRing(m, m.Create(10, 10, 0, 0, 1)))
+	if vParam("stripe1") == 1 {
+		// the second stripe holds a ring that has been drained (present but empty), as after a maintenance run
+		r1 := newRing(m, m.Create(11, 11, 0, 0, 1))
+		r1.drainTo(func(x node.Node[int, int]) {})
+		st.buffers[1].Store(r1)
+	}
 	s.striped.Store(st)
 	prod := func(k int) func() {
 		return func() {
